@@ -5,13 +5,13 @@ package main
 
 import (
 	"bytes"
-	"runtime"
-	"runtime/pprof"
 	"encoding/json"
 	"flag"
 	"fmt"
 	"os"
 	"os/exec"
+	"runtime"
+	"runtime/pprof"
 	"sort"
 	"strings"
 	"sync"
